@@ -37,7 +37,7 @@ class WorkerRun:
         self.t0 = time.time()
         self.last_check = self.t0
         self.killed = False
-        self.stall_s = job.get("stall_s") or 12
+        self.stall_s = job.get("stall_s") or 15
         # memory guard: 6 GiB of address space per worker is far above need (race builds need more)
         pre = "ulimit -v %d; exec " % (64 * 1024 * 1024 if race else 8 * 1024 * 1024)
         self.p = subprocess.Popen(["/bin/sh", "-c", pre + '"$0" "$@"', binary, "-test.run", "^TestWorker$", "-test.timeout", "0"],
@@ -165,8 +165,29 @@ def run_batch(binary, jobs, race=False, stall_s=None):
             if rc != 0:
                 kind, sig, detail = classify_crash(rc, errtxt)
                 job = done.job
+                if kind == "trouble" and sig == "watchdog" and not job.get("_retried") and job.get("mode") == "gen":
+                    # a worker that made no progress without any library goroutine waiting for a
+                    # mutex: most likely starved by the machine; run the rest of its job once more,
+                    # starting at the plan it was on (a plan that really hangs will stall again)
+                    nj = dict(job)
+                    nj["_retried"] = True
+                    if cur is not None:
+                        doneN = int(cur["seed"]) - int(job["seed_start"])
+                        nj["seed_start"] = int(cur["seed"])
+                        nj["count"] = max(1, int(job["count"]) - doneN)
+                    if job.get("budget_ms"):
+                        nj["budget_ms"] = max(2000, job["budget_ms"] - int((time.time() - done.t0) * 1000))
+                    pending.append((nextidx, nj))
+                    nextidx += 1
+                    continue
                 if kind == "trouble" or cur is None:
                     troubles.append({"sig": sig, "detail": detail, "job": {k: v for k, v in job.items() if k != "plans"}})
+                    try:  # keep the whole output for diagnosis
+                        os.makedirs(os.path.join(VERIF, ".build"), exist_ok=True)
+                        with open(os.path.join(VERIF, ".build", "trouble-%d.log" % int(time.time())), "w") as f:
+                            f.write("job: %s\ncurrent plan: %s\n\n%s" % (json.dumps({k: v for k, v in job.items() if k != "plans"}), json.dumps(cur), errtxt))
+                    except Exception:
+                        pass
                 else:
                     crashes.append({"kind": kind, "sig": sig, "detail": detail, "plan": cur, "stderr_tail": errtxt[-6000:]})
                 # resume after the crashing seed
